@@ -106,13 +106,19 @@ pub fn seed_dangling_edge() -> (String, Vec<Op>) {
     )
 }
 
+pub fn seed_idle_group() -> (String, Vec<Op>) {
+    ("a group that holds no data yet + two ungrouped vertices".to_string(), vec![Op::Add(0), Op::Add(1), Op::Add(2), Op::Add(3), Op::Bind(0, 1, 0)])
+}
+
 pub fn seed_reloaded() -> (String, Vec<Op>) {
     ("a group with unread data, reloaded from disk".to_string(), vec![Op::Add(1), Op::Add(2), Op::Bind(1, 2, 0), Op::Put(2, 0), Op::Add(3), Op::Put(3, 0), Op::ReloadSwap])
 }
 
 fn seeded5(prop: &'static str, name: &str, d: usize) -> HxCfg {
     let mut c = HxCfg::new(prop, name, 2, 5, &[0, 1, 2, 3, 4], &[0], &[0]);
-    c.seeds = vec![seed_two_groups_and_bystander(), seed_recycled(), seed_reloaded(), seed_group_of_four(), seed_dangling_edge()];
+    c.seeds = vec![seed_two_groups_and_bystander(), seed_recycled(), seed_reloaded(), seed_group_of_four(), seed_dangling_edge(), seed_idle_group()];
+    c.clone_swap = true;
+    c.reload_swap = true;
     c.max_depth = d;
     c
 }
@@ -126,7 +132,7 @@ fn gc_plan(prop: &'static str, tier: &str) -> Vec<HxCfg> {
             drain(depth(a4(prop, "4 ids"), 7)),
             drain(depth(swaps(a4(prop, "4 ids with clone- and reload-swaps")), 6)),
             drain(depth(a5(prop, "ids 1..4 in 5 slots"), 6)),
-            drain(seeded5(prop, "5 ids from seeds", 3)),
+            drain(seeded5(prop, "5 ids from seeds", 4)),
             drain(HxCfg::new(prop, "3 ids, heap-encoded data of two lengths and the empty datum", 2, 3, &[0, 1, 2], &[0], &[1, 6, 2])),
             drain(depth(a256(prop, "ids 0,5,254,255 in 256 slots, Sodg<16>"), 4)),
         ]
